@@ -13,10 +13,11 @@ NAN64 = 0x7FF8000000000000
 
 
 def mk_qsk_case(et, strat, shape, vals, q, lay, axis, mode):
-    """vals: None or number; et in {f64, oi32}"""
-    if et == "f64":
-        toks = [str(NAN64) if v is None else str(f64_bits(float(v))) for v in vals]
-        model = [int(t) for t in toks]
+    """vals: None or number; et in {f64, oi32, on64}; Option<N64> travels like f64 (None = the NaN key): its
+    NotNan type NotNone<N64> must forward the float conversions Linear uses"""
+    if et in ("f64", "on64"):
+        toks = [("N" if et == "on64" else str(NAN64)) if v is None else str(f64_bits(float(v))) for v in vals]
+        model = [NAN64 if t == "N" else int(t) for t in toks]
         g = str(f64_bits(777.5))
         gm = f64_bits(777.5)
     else:
@@ -67,8 +68,8 @@ class C14(Prop):
             "duplicated values, arranged in 1-3-D shapes, EVERY axis (contiguous or not), through the layout zoo, element "
             "types f64/f32/Option<i32>/Option<u64>; whole-array forms (min/max/argmin/argmax_skipnan, fold, indexed fold, "
             "visit: the visited (index, value) lists are collected), per-axis forms (fold_axis_skipnan, "
-            "map_axis_skipnan_mut: per-lane contents and the whole parent buffer) and quantile_axis_skipnan_mut (f64 and "
-            "Option<i32>, all five strategies, q incl. boundary values, every axis, zoo: values, whole buffer and pivot count "
+            "map_axis_skipnan_mut: per-lane contents and the whole parent buffer) and quantile_axis_skipnan_mut (f64, "
+            "Option<N64> and Option<i32>, all five strategies, q incl. boundary values, every axis, zoo: values, whole buffer and pivot count "
             "against the model = NaN removal followed by the lane quantile kernel on the returned prefix). Non-trivial: some "
             "but not all values missing.")
     exhaustive_note = {"quick": "all NaN patterns of length <= 6 x shapes x every axis", "thorough": "all NaN patterns of length <= 8 x shapes x every axis x 3 layouts"}
@@ -100,7 +101,7 @@ class C14(Prop):
             nd = rng.range(1, 3)
             shape = [rng.range(1, 5) for _ in range(nd)]
             n = prod(shape)
-            et = rng.choice(["f64", "oi32"])
+            et = rng.choice(["f64", "oi32", "on64"])
             vals = [None if rng.chance(1, 3) else (rng.range(-6, 6) if et == "oi32" else rng.range(-6, 6) * 0.25) for _ in range(n)]
             axis = rng.below(nd)
             q = rng.choice([0.0, 1.0, 0.5, 0.25, 0.75, 1.0 / 3.0, 0.9, 0.49999999999999994, rng.below(1000) / 1000.0])
@@ -127,10 +128,10 @@ class C14(Prop):
                 vt = secs[1][1:]
                 post_t = secs[2][1:]
                 plog = parse_log(secs[3])
-                if et == "f64":
+                if et in ("f64", "on64"):
                     cn = lambda b: NAN64 if ((b >> 52) & 0x7FF == 0x7FF and b & ((1 << 52) - 1)) else b
-                    vals_m = [cn(int(t)) for t in vt]
-                    post_m = [cn(int(t)) for t in post_t]
+                    vals_m = [NAN64 if t == "N" else cn(int(t)) for t in vt]
+                    post_m = [NAN64 if t == "N" else cn(int(t)) for t in post_t]
                 else:
                     vals_m = [NANK if t == "N" else int(t) for t in vt]
                     post_m = [NANK if t == "N" else int(t) for t in post_t]
@@ -204,7 +205,7 @@ class C14(Prop):
         lanes = lane_positions(case.shape, case.axis)
         if st["rshape"] != result_shape(case.shape, case.axis) or len(st["vals"]) != len(lanes):
             return ["shape: result shape %s" % st["rshape"]]
-        et = case.et
+        et = "f64" if case.et == "on64" else case.et
         val = (lambda m: None if m == NAN64 else Fraction(bits_f64(m))) if et == "f64" else (lambda m: None if m == NANK else Fraction(m))
         names = ["Higher", "Lower", "Nearest", "Midpoint", "Linear"]
         for ln, got in zip(lanes, st["vals"]):
@@ -317,7 +318,7 @@ class C14(Prop):
             ll = "[" + ";".join("[" + ";".join("%d%%nat" % case.cells[p] for p in ln) + "]" for ln in lanes) + "]"
             N = case.shape[case.axis]
             pm = "(PPolicy %d)" % case.mode[1]
-            if case.et == "f64":
+            if case.et in ("f64", "on64"):
                 return "m_qskipnan_f64 %d %d %d %s %s %s" % (case.strat, f64_bits(case.q), N, zlist(case.buf_m), ll, pm)
             return "m_qskipnan_int true 32 %d %d %d %s %s %s" % (case.strat, f64_bits(case.q), N, zlist(case.buf_m), ll, pm)
         if case.routine == "skipnan":
